@@ -179,7 +179,7 @@ def run(ctx, only=None):
         ctx.extra['trace_lemma_skipped'] = info3['skipped']
         ctx.extra['t2'] = info_t2
         ctx.extra['exhaustive'] = 'per class and slot: polynomial identities decided for all facet points; finite list of classes'
-        need = {'C09_E_' + rd for rd in ('RefTri', 'RefQuad', 'RefTet', 'RefHex')}
+        need = set(info3['sources'])
         ok9, _ = compile_generated(ctx, {k: v for k, v in chunks9.items() if k in need}, info9, tag='C09')
         ok3 = False
         if ok9:
@@ -193,7 +193,7 @@ def run(ctx, only=None):
             ctx.compile_dyn(['gen/C03_Gen.v'])
             ctx.broke('proof', 'props/C03.v', 'not compiled: generated trace identities failed')
         if ctx.known.findings.get('C03'):
-            ctx.extra['known_refutations_on_coq_side'] = info3['names']['h1_symmetry_refuted'] + info3['names']['vector_uniform_refuted']
+            ctx.extra['known_refutations_on_coq_side'] = {k: info3['names'][k] for k in ('h1_symmetry_refuted', 'vector_uniform_refuted', 'quadp_shift_refuted')}
         corr_sort(ctx)
         _quiet(corr_orient, ctx)
     oracle(ctx, only=only)
